@@ -1,6 +1,6 @@
 #!/usr/bin/env python3
-"""Translator for the LOADER side of src/time_zone_info.cc: clang JSON AST -> Gallina (coq/SourceLoad.v), re-run
-on every check.  Sibling of gen/ast_translate_zone.py (whose expression / statement translation it reuses):
+"""Translator for the LOADER side of src/time_zone_info.cc: clang JSON AST -> Gallina (coq/SourceLoad.v, and
+coq/SourceNames.v next to it - see the end of this text), re-run on every check.  Sibling of gen/ast_translate_zone.py (whose expression / statement translation it reuses):
 
   Header::Build, Header::DataLength, TimeZoneInfo::GetTransitionType, TimeZoneInfo::ExtendTransitions,
   TimeZoneInfo::Load(ZoneInfoSource*).
@@ -49,8 +49,45 @@ The loader MUTATES the object, so `this` is a state that is threaded through:
  * everything else (checked signed arithmetic, wrapping size_t arithmetic, narrowing through narrow32, loops on
    fuel, if-joins, short-circuit, assert) as in ast_translate_zone.py.
 
-Anything else makes that function 'untranslated' (previous SourceLoad.v kept, fact recorded; not an alarm).
-coq/SourceLoadProofs.v ties each function to the hand-written model of ZoneLoad.v."""
+A second output, coq/SourceNames.v (definitions sn_*), is the NAME-RESOLUTION and CACHE code:
+
+  TimeZoneInfo::ResetToBuiltinUTC, TimeZoneInfo::Load(const std::string&), FileZoneInfoSource::Open
+  (src/time_zone_info.cc), local_time_zone() (src/time_zone_lookup.cc), time_zone::Impl::LoadTimeZone
+  (src/time_zone_impl.cc).
+
+ * what the code asks the outside world is an ORACLE, an extra parameter of the definition:
+   `zone_info_source_factory(name, fallback)` is [factory__ name : option (bytes, Version())] (the fallback lambda
+   belongs to the oracle and is not inspected); `std::getenv("X")` is [getenv__ "X" : option (list Z)] (nullptr =
+   None); `FOpen(path.c_str(), "rb")` is [fopen__ (c_str path) : option (bytes of the file)] and
+   `new FileZoneInfoSource(std::move(fp))` is the source (those bytes, Version() = ""); `load_time_zone(name, &tz)`
+   is [load_time_zone__ name tz : bool * TZ] over an abstract type TZ of time_zone values, `time_zone tz;` is
+   [tz_default__].
+ * FixedOffsetFromName / FixedOffsetToName / FixedOffsetToAbbr are the source-derived SourceFixed.so_* functions
+   (`seconds::zero()` is 0); `Load(name, zip.get())` is sl_Load with version_ threaded.
+ * a std::string local is a list: `size` `empty` `c_str` `s[i]` (str_at: the NUL at size()) `+=` of a character / a
+   C string, `append(s, pos, npos)` (str_from), `compare(pos, n, "lit") == 0` (str_compare_eq; pos <= size() or
+   Err OOB), `==` of two strings (list_eqb), construction from a `const char*`; `for (x : {c1, c2})` is unrolled.
+ * a nullable `const char*` is an `option (list Z)`: the characters before the NUL; `p != nullptr` / `if (p)`,
+   `*p` (hd 0: the NUL of an empty string), `++p` (cstr_next: Err OOB past the NUL), `strcmp(p, "lit") == 0`.
+   A `std::unique_ptr` to a source / FILE is an option: `== nullptr`, `return nullptr`.
+ * LoadTimeZone (class CacheFn, its own small vocabulary; statements in continuation-passing style, so the code
+   after an `if` that may return appears in both branches) is a SEQUENTIAL function over an explicit cache:
+   time_zone_map is `option imap` (None = nullptr; imap an association list, newest key first, of nullable Impl
+   pointers `option nat`: None = nullptr, an Impl is its identity, UTCImpl() is 0); `find` / `end()` / `->second`
+   (map_find, reading end() is Err Uninit), `(*time_zone_map)[name]` (map_index: a missing key is inserted with
+   nullptr; the `const Impl*&` is an alias of that entry: reading it looks the key up, assigning it is map_set),
+   `time_zone_map = new TimeZoneImplByName` (Some []).  `std::lock_guard<std::mutex> l(TimeZoneMutex())` appends
+   LkLock to the trace where it is declared and LkUnlock where its scope ends (each return included); at the
+   k-th acquisition the guarded variable becomes [world__ k time_zone_map] - whatever the other threads left
+   there; touching time_zone_map without the lock, or taking the lock twice, makes the function untranslated.
+   `new Impl(name)` is the oracle [new_impl__ name : identity * (zone_ != nullptr)]; `p->zone_ ? p.release() : q`.
+   The declarations are checked too: time_zone_map is one namespace-scope pointer that is not thread_local and
+   starts null, TimeZoneMutex() returns one function-local static mutex.
+
+Anything else makes that function 'untranslated' (previous SourceLoad.v / SourceNames.v kept, fact recorded; not
+an alarm).  coq/SourceLoadProofs.v ties each loader function to the hand-written model of ZoneLoad.v,
+coq/SourceNamesProofs.v the name-resolution functions to ZoneLoad.v / NameRes.v, coq/SourceCacheProofs.v
+LoadTimeZone to LoaderSM.v (S1 | S2 | S3, LoaderSM.publish)."""
 import json, os, re, sys
 
 sys.path.insert(0, os.path.dirname(__file__))
@@ -66,7 +103,8 @@ ZONE_MEMBERS = [("transitions_", "vec:tr", "z_trans"), ("transition_types_", "ve
 ZONE_CTYPE = {"default_transition_type_": (8, False), "last_year_": (64, True)}
 HEADER_MEMBERS = [("timecnt", "oZ", "oh_timecnt"), ("typecnt", "oZ", "oh_typecnt"), ("charcnt", "oZ", "oh_charcnt"),
                   ("leapcnt", "oZ", "oh_leapcnt"), ("ttisstdcnt", "oZ", "oh_isstdcnt"), ("ttisutcnt", "oZ", "oh_isutcnt")]
-OWNERS = {"TimeZoneInfo": ("z", "zone", "mkZone", ZONE_MEMBERS), "Header": ("h", "oheader", "mkOH", HEADER_MEMBERS)}
+OWNERS = {"TimeZoneInfo": ("z", "zone", "mkZone", ZONE_MEMBERS), "Header": ("h", "oheader", "mkOH", HEADER_MEMBERS),
+          "none": ("", "", "", [])}                     # a static member function: no object
 XSTATE_MEMBERS = {"version_": "str"}          # members of TimeZoneInfo outside the zone record: threaded separately
 PTZ_FIELDS = {"std_abbr": "str", "std_offset": "oZ", "dst_abbr": "str", "dst_offset": "oZ", "dst_start": "ptrans", "dst_end": "ptrans"}
 # source-derived functions of other generated files: name -> (Gallina name, parameter kinds, result kind, fuel)
@@ -74,7 +112,9 @@ EXTERNAL = {"IsLeap": ("Source64.s64_IsLeap", ["Z"], "bool", False),
             "ToPosixWeekday": ("Source64.s64_ToPosixWeekday", ["Z"], "Z", False),
             "get_weekday": ("Source64.s64_get_weekday", ["cs"], "Z", False),
             "TransOffset": ("Source64InfoProofs.flat_trans", ["bool", "Z", "ptrans"], "Z", False),
-            "AllYearDST": ("Source64InfoProofs.flat_allyear", ["ptz"], "bool", False)}
+            "AllYearDST": ("Source64InfoProofs.flat_allyear", ["ptz"], "bool", False),
+            "FixedOffsetToAbbr": ("SourceFixed.so_FixedOffsetToAbbr", ["Z"], "str", False),
+            "FixedOffsetToName": ("SourceFixed.so_FixedOffsetToName", ["Z"], "str", False)}
 # the byte decoders of SourceDecode.v and the number of bytes each reads from its argument (SourceDecode reads through the
 # C-string convention of the pointer translator - index length is a readable NUL - so the span is checked here)
 DECODE = {"Decode32": ("SourceDecode.sd_Decode32", 4), "Decode64": ("SourceDecode.sd_Decode64", 8), "Decode8": ("SourceDecode.sd_Decode8", 1)}
@@ -82,13 +122,21 @@ DECODE = {"Decode32": ("SourceDecode.sd_Decode32", 4), "Decode64": ("SourceDecod
 ZONE_QUERIES = {("EquivTransitions", ("Z", "Z")): ("sz_EquivTransitions", "bool"),
                 ("LocalTime", ("Z", "tt")): ("sz_LocalTime_i64_tt", "al"),
                 ("LocalTime", ("Z", "tr")): ("sz_LocalTime_i64_tr", "al")}
-TARGETS = [("Header::Build", "Build", "Header"), ("Header::DataLength", "DataLength", "Header"),
-           ("GetTransitionType", "GetTransitionType", "TimeZoneInfo"), ("ExtendTransitions", "ExtendTransitions", "TimeZoneInfo"),
-           ("TimeZoneInfo::Load", "Load", "TimeZoneInfo")]
+# (clang filter, C++ name, owner, output file, key, substring the function type must contain)
+TARGETS = [("Header::Build", "Build", "Header", "load", "Build", ""), ("Header::DataLength", "DataLength", "Header", "load", "DataLength", ""),
+           ("GetTransitionType", "GetTransitionType", "TimeZoneInfo", "load", "GetTransitionType", ""),
+           ("ExtendTransitions", "ExtendTransitions", "TimeZoneInfo", "load", "ExtendTransitions", ""),
+           ("TimeZoneInfo::Load", "Load", "TimeZoneInfo", "load", "Load", "ZoneInfoSource"),
+           ("ResetToBuiltinUTC", "ResetToBuiltinUTC", "TimeZoneInfo", "names", "ResetToBuiltinUTC", ""),
+           ("TimeZoneInfo::Load", "Load", "TimeZoneInfo", "names", "LoadName", "std::string"),
+           ("FileZoneInfoSource::Open", "Open", "none", "names", "FileOpen", ""),
+           ("local_time_zone", "local_time_zone", "none", "names", "local_time_zone", "", "src/time_zone_lookup.cc"),
+           ("LoadTimeZone", "LoadTimeZone", "cache", "names", "LoadTimeZone", "", "src/time_zone_impl.cc")]
+PREFIX = {"load": "sl_", "names": "sn_"}
 
 ZM.GTYPE.update({"vec:tr": "list transition", "vec:tt": "list ttype", "str": "list Z", "oZ": "option Z", "optz": "option posix_tz",
                  "ptz": "posix_tz", "ptrans": "ptrans", "lref": "transition", "bytes": "list Z", "otzh": "option (list Z)",
-                 "ohdr": "oheader", "cvec": "list Z", "zip": "list Z", "ttptr": "Z"})
+                 "ohdr": "oheader", "cvec": "list Z", "zip": "list Z", "ttptr": "Z", "osrc": "option (list Z * list Z)", "ocstr": "option (list Z)", "ofile": "option (list Z)", "cstrv": "list Z", "tzv": "TZ"})
 # C++ locals that would capture an identifier the translation itself emits get a trailing underscore
 ZM.RESERVED |= {p for r in RECORDS.values() for _, p in r[4]} | {p for _, _, p in ZONE_MEMBERS + HEADER_MEMBERS} | set(PTZ_FIELDS) | \
     {"fy", "fm", "fd", "fhh", "fmm", "fss", "h", "repeat", "length", "firstn", "skipn", "nth_res", "vec_size", "vec_empty", "vec_back",
@@ -123,6 +171,12 @@ def lclassify(s):
         return "cvec"
     if s == "cctz::ZoneInfoSource *":
         return "zip"
+    if s in ("std::unique_ptr<cctz::ZoneInfoSource>", "std::unique_ptr<ZoneInfoSource>"):
+        return "osrc"
+    if s.startswith("std::unique_ptr<_IO_FILE,"):
+        return "ofile"
+    if s == "cctz::time_zone":
+        return "tzv"
     if s == "cctz::TransitionType *":
         return "ttptr"
     if s == "char *":
@@ -184,10 +238,14 @@ class LFn(Fn):
     def __init__(self, key, ast, owner, unit):
         Fn.__init__(self, key, ast, None, unit)
         self.owner = owner
-        self.gname = "sl_" + key
+        self.gname = PREFIX[getattr(unit, "cur_file", "load")] + key
         self.this_var, self.this_type, self.this_ctor, self.members = OWNERS[owner]
+        names_used = {callee_ref(m).get("referencedDecl", {}).get("name") for m in walk(self.body) if m.get("kind") == "CallExpr"}
+        self.uses_getenv, self.uses_fopen = "getenv" in names_used, "FOpen" in names_used
+        self.uses_loadtz = "load_time_zone" in names_used
+        self.uses_factory = any(m.get("kind") == "DeclRefExpr" and m.get("referencedDecl", {}).get("name") == "zone_info_source_factory" for m in walk(self.body))
         self.mkinds = {m: k for m, k, _ in self.members}
-        self.const_method = re.search(r"\)\s*const\s*$", ast.get("type", {}).get("qualType", "")) is not None
+        self.const_method = owner == "none" or re.search(r"\)\s*const\s*$", ast.get("type", {}).get("qualType", "")) is not None
         self.member = True
         self.refs = {}                 # alias of a vector element: name -> (vector variable, index term, element kind)
         self.snaps = {}                # const-reference snapshot of a vector element: name -> vector variable
@@ -287,6 +345,10 @@ class LFn(Fn):
             return b + [B("let %s := %s in\n" % (v, t), v)]
         if self.kinds.get(v, "").startswith("vec:") or self.kinds.get(v) == "str":
             raise Untranslatable("assignment to the container " + v)
+        if self.kinds.get(v) == "ocstr":
+            if kd not in ("ocstr", "cstrv") or v not in scope:
+                raise Untranslatable("assignment to " + v)
+            return b + [B("let %s := %s in\n" % (v, t if kd == "ocstr" else "Some %s" % t), v)]
         if self.kinds.get(v) == "ttptr":
             if kd != "ttptr" or v not in scope:
                 raise Untranslatable("assignment to " + v)
@@ -438,11 +500,19 @@ class LFn(Fn):
 
     def cast(self, n, scope):
         ck = n.get("castKind")
-        if ck == "ArrayToPointerDecay":
+        if ck == "ArrayToPointerDecay" and strip(n["inner"][-1]).get("kind") != "StringLiteral":
             b, t, kd = self.expr(n["inner"][-1], scope)
             if kd.startswith("cptr:"):
                 return b, t, kd
             raise Untranslatable("array decay of a " + kd)
+        if ck == "ArrayToPointerDecay" and strip(n["inner"][-1]).get("kind") == "StringLiteral":
+            text = json.loads(strip(n["inner"][-1])["value"])
+            return [], "[%s]" % "; ".join(str(ord(ch)) for ch in text), "cstrv"
+        if ck == "PointerToBoolean":
+            b, t, kd = self.expr(n["inner"][-1], scope)
+            if kd == "ocstr":
+                return b, "(match %s with Some _ => true | None => false end)" % t, "bool"
+            raise Untranslatable("truth value of a " + kd)
         if ck == "BitCast" and dty(n) == "void *":
             return self.expr(n["inner"][-1], scope)
         if ck == "IntegralCast" and dty(n) == "char":
@@ -456,6 +526,35 @@ class LFn(Fn):
 
     def construct(self, n, scope):
         inner = n.get("inner", [])
+        try:
+            kn = kind_of(n)
+        except Untranslatable:
+            kn = ""
+        if kn == "tzv" and len(inner) == 1:
+            b, t, kd = self.expr(inner[0], scope)
+            if kd == "tzv":
+                return b, t, kd
+            raise Untranslatable("construction of a time_zone from a " + kd)
+        if kn in ("osrc", "ofile") and len(inner) == 1:
+            core = inner[0]
+            while core.get("kind") in TRANSPARENT or core.get("kind") in CASTS:
+                core = core["inner"][-1]
+            if core.get("kind") == "CXXNullPtrLiteralExpr":
+                return [], "None", kn
+            if core.get("kind") == "CXXNewExpr" and kn == "osrc" and dty(core) == "cctz::(anonymous namespace)::FileZoneInfoSource *":
+                ce = core["inner"][0]
+                cargs = [a for a in ce.get("inner", []) if a.get("kind") != "CXXDefaultArgExpr"]
+                if len(cargs) != 1:
+                    raise Untranslatable("construction of a FileZoneInfoSource")
+                b, t, kd = self.expr(cargs[0], scope)
+                if kd != "ofile":
+                    raise Untranslatable("construction of a FileZoneInfoSource from a " + kd)
+                x = self.fresh()      # a source over the whole file; FileZoneInfoSource::Version() is the empty string
+                return b + [B("do %s <- get_opt %s ;;\n" % (x, t))], "(Some (%s, ([] : list Z)))" % x, "osrc"
+            b, t, kd = self.expr(inner[0], scope)
+            if kd == kn:
+                return b, t, kd
+            raise Untranslatable("construction of a %s from a %s" % (kn, kd))
         if kind_of(n) == "cs" and len(inner) == 6 and any(a.get("kind") == "CXXDefaultArgExpr" for a in inner):
             binds, terms = [], []
             for a, dflt in zip(inner, self.unit.ctor_defaults):
@@ -566,6 +665,22 @@ class LFn(Fn):
         ov = self.local_of(me["inner"][0], "ohdr")
         if ov is not None:
             return self.object_call(ov, name, args, scope)
+        sv = self.local_of(me["inner"][0], "str")
+        if sv is not None and sv in scope and sv not in self.mkinds:
+            if name == "size" and not args:
+                return [], "(vec_size %s)" % sv, "Z"
+            if name == "empty" and not args:
+                return [], "(vec_empty %s)" % sv, "bool"
+            if name == "c_str" and not args:
+                return [], "(c_str %s)" % sv, "cstrv"
+            if name == "append" and len(args) == 3 and strip(args[2]).get("referencedDecl", {}).get("name") == "npos":
+                b1, t1, k1 = self.expr(args[0], scope)
+                b2, t2, k2 = self.expr(args[1], scope)
+                if k1 != "str" or k2 != "Z" or int_type(args[1]) != (64, False) or rebound(b1 + b2):
+                    raise Untranslatable("arguments of append")
+                x = self.fresh()
+                return b1 + b2 + [B("do %s <- str_from %s %s ;;\n" % (x, t1, t2)), B("let %s := %s ++ %s in\n" % (sv, sv, x), sv)], "tt", "void"
+            raise Untranslatable("member call .%s on a string" % name)
         cv = self.local_of(me["inner"][0], "cvec")
         if cv is not None and cv in scope and not args:
             if name == "data":
@@ -659,7 +774,7 @@ class LFn(Fn):
                 raise Untranslatable("member %s is not readable here" % m)
         if info is not None and info["owner"] == "TimeZoneInfo":
             if info.get("xstates"):
-                raise Untranslatable("call of a function that threads further state")
+                return self.call_threaded(info, args, scope)
             if len(args) != len(info["params"]) + len(info["outz"]):
                 raise Untranslatable("argument count of " + name)
             binds, terms, parts, outs = [], [], [], []
@@ -711,6 +826,32 @@ class LFn(Fn):
         r = self.fresh()
         return binds + [B("do %s <- %s %s %s ;;\n" % (r, q[0], self.zone_term(), " ".join(terms)))], r, q[1]
 
+    def call_threaded(self, info, args, scope):
+        """this->f(p.get()) for f that threads version_ and a ZoneInfoSource, p a unique_ptr local"""
+        if info["outz"] or len(args) != len(info["params"]) or [k for _, k in info["params"]] != ["zip"] or not info["uses_version"]:
+            raise Untranslatable("call of " + info["gname"])
+        a = strip(args[0])
+        v = None
+        if a.get("kind") == "CXXMemberCallExpr" and a["inner"][0].get("name") == "get" and len(a["inner"]) == 1:
+            v = self.local_of(a["inner"][0]["inner"][0], "osrc")
+        if v is None or v not in scope:
+            raise Untranslatable("argument of " + info["gname"])
+        for x in info["xstates"]:
+            if x in XSTATE_MEMBERS and x not in scope:
+                raise Untranslatable("read of " + x)
+        pr, r, z1, zr = self.fresh(), self.fresh(), self.fresh(), self.fresh()
+        mem = [x for x in info["xstates"] if x in XSTATE_MEMBERS]
+        out = [B("do %s <- get_opt %s ;;\n" % (pr, v)),
+               B("do '(%s) <- %s%s %s %s (fst %s) (snd %s) ;;\n" % (", ".join([r, z1] + mem + [zr]), info["gname"], " fuel" if info["fuel"] else "",
+                                                                  self.zone_term(), " ".join(mem), pr, pr))]
+        out += [B("", x) for x in mem]
+        out += self.rebind_this(z1)
+        out.append(B("let %s := Some (%s, snd %s) in\n" % (v, zr, pr), v))
+        for m, k, _ in self.members:
+            if k.startswith("vec:") or k == "str":
+                self.vec_resized(m, scope)
+        return out, r, info["ret"]
+
     def call(self, n, scope):
         c = callee_ref(n)
         ref = c.get("referencedDecl", {})
@@ -730,6 +871,44 @@ class LFn(Fn):
             if kd != "str" or v is None or self.kinds.get(v) != "optz" or v not in scope or rebound(b):
                 raise Untranslatable("arguments of ParsePosixSpec")
             return b + [B("let %s := ParsePosixSpec %s in\n" % (v, t), v)], "(match %s with Some _ => true | None => false end)" % v, "bool"
+        if name == "load_time_zone" and len(args) == 2 and ref.get("kind") == "FunctionDecl":
+            b, t, kd = self.expr(args[0], scope)           # the zone loader is an oracle: name, *tz on entry -> result, *tz
+            a = strip(args[1])
+            v = self.local_of(a["inner"][0], "tzv") if a.get("kind") == "UnaryOperator" and a.get("opcode") == "&" else None
+            if kd != "str" or v is None or v not in scope or rebound(b):
+                raise Untranslatable("arguments of load_time_zone")
+            r = self.fresh()
+            return b + [B("let '(%s, %s) := load_time_zone__ %s %s in\n" % (r, v, t, v), v)], r, "bool"
+        if name == "getenv" and len(args) == 1:
+            b, t, kd = self.expr(args[0], scope)                   # the environment is an oracle
+            if kd != "cstrv" or b:
+                raise Untranslatable("argument of getenv")
+            return [], "(getenv__ %s)" % t, "ocstr"
+        if name == "FOpen" and len(args) == 2:
+            b, t, kd = self.expr(args[0], scope)                   # the file system is an oracle: path -> contents
+            mb, mt, mk = self.expr(args[1], scope)
+            if kd != "cstrv" or mk != "cstrv" or mt != "[114; 98]" or rebound(b):
+                raise Untranslatable("arguments of FOpen")
+            return b, "(fopen__ %s)" % t, "ofile"
+        if name == "move" and len(args) == 1:
+            return self.expr(args[0], scope)
+        if name == "zero" and not args and ref.get("kind") == "CXXMethodDecl" and kind_of(n) == "dur":
+            return [], "0", "Z"
+        if name == "FixedOffsetFromName" and len(args) == 2 and ref.get("kind") == "FunctionDecl":
+            b, t, kd = self.expr(args[0], scope)
+            a = strip(args[1])
+            tgt = strip(a["inner"][0]) if a.get("kind") == "UnaryOperator" and a.get("opcode") == "&" else {}
+            v = tgt.get("referencedDecl", {}).get("name") if tgt.get("kind") == "DeclRefExpr" else None
+            if kd != "str" or v is None or self.kinds.get(v) != "Z" or self.ctype.get(v) != (64, True) or v not in scope or rebound(b):
+                raise Untranslatable("arguments of FixedOffsetFromName")
+            r = self.fresh()
+            return b + [B("do '(%s, %s) <- SourceFixed.so_FixedOffsetFromName %s %s ;;\n" % (r, v, t, v), v)], r, "bool"
+        if name == "zone_info_source_factory" and ref.get("kind") == "VarDecl" and len(args) == 2:
+            # the factory (and the default sources it may fall back to) is an oracle: name -> (bytes, Version()) or nothing
+            b, t, kd = self.expr(args[0], scope)
+            if kd != "str" or rebound(b) or not any(m.get("kind") == "LambdaExpr" for m in walk(args[1])):
+                raise Untranslatable("arguments of zone_info_source_factory")
+            return b, "(factory__ %s)" % t, "osrc"
         if name in EXTERNAL and ref.get("kind") == "FunctionDecl":
             gname, pk, rk, fuel = EXTERNAL[name]
             if len(args) != len(pk):
@@ -801,6 +980,31 @@ class LFn(Fn):
                 if k1 != "tr" or k2 != "tr":
                     raise Untranslatable("arguments of the comparator")
                 return self.unseq(b1, t1, b2, t2), "(sz_%s %s %s)" % (ck[4:], t1, t2), "bool"
+        if op in ("operator!=", "operator==") and len(args) == 2:
+            v = self.local_of(args[0], "osrc") or self.local_of(args[0], "ofile")
+            if v is not None and v in scope and dty(args[1]) == "std::nullptr_t":
+                return [], ("(match %s with Some _ => true | None => false end)" if op == "operator!=" else
+                            "(match %s with Some _ => false | None => true end)") % v, "bool"
+        if op == "operator[]" and len(args) == 2:
+            sv = self.local_of(args[0], "str")
+            if sv is not None and sv in scope and sv not in self.mkinds:
+                ib, it, ik = self.expr(args[1], scope)
+                if ik != "Z" or int_type(args[1]) != (64, False):
+                    raise Untranslatable("index type")
+                x = self.fresh()
+                return ib + [B("do %s <- str_at %s %s ;;\n" % (x, sv, it))], x, "Z"
+        if op == "operator+=" and len(args) == 2:
+            sv = self.local_of(args[0], "str")
+            if sv is not None and sv in scope and sv not in self.mkinds:
+                b, t, kd = self.expr(args[1], scope)
+                if any(x.var == sv for x in b):
+                    raise Untranslatable("unsequenced modification of " + sv)
+                if kd == "ocstr":
+                    x = self.fresh()
+                    return b + [B("do %s <- get_opt %s ;;\n" % (x, t)), B("let %s := %s ++ %s in\n" % (sv, sv, x), sv)], sv, "str"
+                if kd == "Z" and dty(args[1]) == "char":
+                    return b + [B("let %s := %s ++ [%s] in\n" % (sv, sv, t), sv)], sv, "str"
+                raise Untranslatable("operator+= of a " + kd)
         if op == "operator=" and len(args) == 2:
             tgt = self.field_target(args[0], scope)
             if tgt is not None:
@@ -818,6 +1022,12 @@ class LFn(Fn):
                 k1, k2 = kind_of(args[0]), kind_of(args[1])
             except Untranslatable:
                 k1 = k2 = None
+            if (k1, k2) == ("str", "str"):
+                b1, t1, e1 = self.expr(args[0], scope)
+                b2, t2, e2 = self.expr(args[1], scope)
+                if e1 != "str" or e2 != "str":
+                    raise Untranslatable("comparison of a %s with a %s" % (e1, e2))
+                return self.unseq(b1, t1, b2, t2), "(list_eqb %s %s)" % (t1, t2), "bool"
             if (k1, k2) in (("abbr", "str"), ("str", "abbr")):
                 b1, t1, e1 = self.expr(args[0], scope)
                 b2, t2, e2 = self.expr(args[1], scope)
@@ -852,6 +1062,11 @@ class LFn(Fn):
                 return self.read_var(v, scope)
             if v is not None and v in self.outz:
                 return self.read_var(v, scope)
+            if v is not None and self.kinds.get(v) == "ocstr" and dty(n) == "char":
+                if v not in scope:
+                    raise Untranslatable("read of " + v)
+                x = self.fresh()
+                return [B("do %s <- get_opt %s ;;\n" % (x, v))], "(hd 0 %s)" % x, "Z"
             if v is not None and self.kinds.get(v) == "ttptr":
                 b, t, _ = Fn.read_var(self, v, scope)
                 x = self.fresh()
@@ -861,6 +1076,10 @@ class LFn(Fn):
             if m is not None and m not in self.ctype:
                 raise Untranslatable("increment of " + m)
             v = self.place(inner[0], scope)
+            if v is not None and self.kinds.get(v) == "ocstr" and v in scope and op == "++" and not n.get("isPostfix"):
+                x, y = self.fresh(), self.fresh()      # the next character of a C string: there must be one
+                return [B("do %s <- get_opt %s ;;\n" % (x, v)), B("do %s <- cstr_next %s ;;\n" % (y, x)),
+                        B("let %s := Some %s in\n" % (v, y), v)], v, "ocstr"
             if v is not None and self.kinds.get(v, "").startswith("cptr:") and v in scope:
                 x = self.fresh()
                 step = [B("do %s <- cadd %s %s %s ;;\n" % (x, self.kinds[v][5:], v, "1" if op == "++" else "(-1)"))]
@@ -908,6 +1127,33 @@ class LFn(Fn):
             want = "[%s]" % "; ".join(str(ord(ch)) for ch in text[:k])
             e = "(list_eqb %s %s)" % (x, want)
             return b1 + [B("do %s <- csub %s %s %d ;;\n" % (x, k1[5:], t1, k))], (e if op == "==" else "(negb %s)" % e), "bool"
+        if op in ("==", "!="):
+            for a_, o_ in ((inner[0], inner[1]), (inner[1], inner[0])):
+                c_ = strip(a_)
+                if self.is_strcmp(c_) and fold(o_) == 0:
+                    v = self.local_of(c_["inner"][1], "ocstr")
+                    if v is not None and v in scope:
+                        b2, t2, k2 = self.expr(c_["inner"][2], scope)
+                        if k2 != "cstrv" or b2:
+                            raise Untranslatable("arguments of strcmp")
+                        x = self.fresh()
+                        e = "(list_eqb %s %s)" % (x, t2)
+                        return [B("do %s <- get_opt %s ;;\n" % (x, v))], (e if op == "==" else "(negb %s)" % e), "bool"
+                if c_.get("kind") == "CXXMemberCallExpr" and c_["inner"][0].get("name") == "compare" and len(c_["inner"]) == 4 and fold(o_) == 0:
+                    sv = self.local_of(c_["inner"][0]["inner"][0], "str")
+                    b1, t1, k1 = self.expr(c_["inner"][1], scope)
+                    b2, t2, k2 = self.expr(c_["inner"][2], scope)
+                    b3, t3, k3 = self.expr(c_["inner"][3], scope)
+                    if sv is None or sv not in scope or k1 != "Z" or k2 != "Z" or k3 != "cstrv" or b1 or b2 or b3:
+                        raise Untranslatable("arguments of compare")
+                    x = self.fresh()    # s.compare(p, n, "lit") == 0: the (at most n) characters of s from p on are the literal
+                    return [B("do %s <- str_compare_eq %s %s %s %s ;;\n" % (x, sv, t1, t2, t3))], (x if op == "==" else "(negb %s)" % x), "bool"
+        if op in ("==", "!=") and "char *" in (dty(inner[0]), dty(inner[1])):
+            for a_, o_ in ((inner[0], inner[1]), (inner[1], inner[0])):
+                v = self.local_of(a_, "ocstr")
+                if v is not None and v in scope and strip(o_).get("kind") == "CXXNullPtrLiteralExpr":
+                    return [], ("(match %s with Some _ => false | None => true end)" if op == "==" else
+                                "(match %s with Some _ => true | None => false end)") % v, "bool"
         if op in ("==", "!=", "+", "-") and "char *" in (dty(inner[0]), dty(inner[1])):
             if True:
                 b1, t1, k1 = self.expr(inner[0], scope)
@@ -1169,6 +1415,52 @@ class LFn(Fn):
             self.kinds[name] = "optz"
             scope.append(name)
             return [B("let %s := (None : option posix_tz) in\n" % name, name)]
+        if kd == "tzv" and self.default_constructed(vd):
+            self.kinds[name] = "tzv"
+            scope.append(name)
+            return [B("let %s := tz_default__ in\n" % name, name)]
+        if kd == "str" and not self.default_constructed(vd):
+            cargs = []
+            for m_ in walk(vd["inner"][-1]):                      # through the elided copy to std::string(const char*)
+                if m_.get("kind") == "CXXConstructExpr" and dty(m_) == "std::basic_string<char>":
+                    ca = [a for a in m_.get("inner", []) if a.get("kind") != "CXXDefaultArgExpr"]
+                    if len(ca) == 1 and dty(ca[0]) == "char *":
+                        cargs = ca
+            if len(cargs) == 1 and dty(cargs[0]) == "char *":
+                b, t, k1 = self.expr(cargs[0], scope)          # std::string(const char*): the characters up to the NUL
+                self.kinds[name] = "str"
+                scope.append(name)
+                if k1 == "ocstr":
+                    x = self.fresh()
+                    return b + [B("do %s <- get_opt %s ;;\n" % (x, t)), B("let %s := %s in\n" % (name, x), name)]
+                if k1 == "cstrv":
+                    return b + [B("let %s := %s in\n" % (name, t), name)]
+                raise Untranslatable("initialiser of " + name)
+        if kd == "str" and self.default_constructed(vd):
+            self.kinds[name] = "str"
+            scope.append(name)
+            return [B("let %s := ([] : list Z) in\n" % name, name)]
+        if kd == "abbr" and vd.get("inner") and strip(vd["inner"][-1]).get("kind") in ("StringLiteral", "CXXNullPtrLiteralExpr"):
+            self.kinds[name] = "ocstr"                             # a nullable pointer to a C string
+            scope.append(name)
+            if strip(vd["inner"][-1]).get("kind") == "CXXNullPtrLiteralExpr":
+                return [B("let %s := (None : option (list Z)) in\n" % name, name)]
+            b, t, k1 = self.expr(vd["inner"][-1], scope)
+            return b + [B("let %s := Some %s in\n" % (name, t), name)]
+        if kd == "ofile":
+            b, t, k1 = self.expr(vd["inner"][-1], scope)
+            if k1 != "ofile":
+                raise Untranslatable("initialiser of " + name)
+            self.kinds[name] = "ofile"
+            scope.append(name)
+            return b + [B("let %s := %s in\n" % (name, t), name)]
+        if kd == "osrc":
+            b, t, k1 = self.expr(vd["inner"][-1], scope)
+            if k1 != "osrc":
+                raise Untranslatable("initialiser of " + name)
+            self.kinds[name] = "osrc"
+            scope.append(name)
+            return b + [B("let %s := %s in\n" % (name, t), name)]
         if kd == "cvec":                                        # std::vector<char> v(n): n zero bytes
             core = strip_copies(vd["inner"][-1])
             args = [a for a in core.get("inner", []) if a.get("kind") != "CXXDefaultArgExpr"] if core.get("kind") == "CXXConstructExpr" else None
@@ -1226,6 +1518,16 @@ class LFn(Fn):
     def index_alias(self, vd, scope):
         """T& r(v[i]): r is an alias of that element"""
         init = strip_copies(vd["inner"][-1]) if vd.get("inner") else None
+        if init is not None and init.get("kind") == "CXXMemberCallExpr" and init["inner"][0].get("name") == "back" and len(init["inner"]) == 1:
+            vk = self.vec_of(init["inner"][0]["inner"][0], scope)       # T& r(v.back()): the last element
+            if vk is None or not vk[1].startswith("vec:"):
+                return None
+            ix = self.fresh()
+            name = vd["name"]
+            self.refs[name] = (vk[0], ix, vk[1][4:])
+            self.kinds[name] = "ref"
+            scope.append(name)
+            return [B("do _ <- vec_back %s ;;\n" % vk[0]), B("let %s := vec_size %s - 1 in\n" % (ix, vk[0]))]
         if init is None or init.get("kind") != "CXXOperatorCallExpr" or callee_ref(init).get("referencedDecl", {}).get("name") != "operator[]":
             return None
         vk = self.vec_of(init["inner"][1], scope)
@@ -1269,6 +1571,17 @@ class LFn(Fn):
                 return tail[4]
             if stmts[0].get("kind") == "BreakStmt":
                 return "OK (None, %s)" % self.tup(tail[3])
+        if stmts and stmts[0].get("kind") == "ReturnStmt" and stmts[0].get("inner"):
+            e = stmts[0]["inner"][0]
+            while e.get("kind") in TRANSPARENT:
+                e = e["inner"][-1]
+            if e.get("kind") == "BinaryOperator" and e.get("opcode") == "&&" and self.ret_kind == "bool" and \
+                    any(m.get("kind") in ("CXXMemberCallExpr", "CallExpr") for m in walk(e["inner"][1])):
+                # return a && f(..): f may change the object, so this is  if (a) return f(..); else return false;
+                lit = {"kind": "CXXBoolLiteralExpr", "value": False, "type": {"qualType": "bool"}}
+                node = {"kind": "IfStmt", "hasElse": True,
+                        "inner": [e["inner"][0], {"kind": "ReturnStmt", "inner": [e["inner"][1]]}, {"kind": "ReturnStmt", "inner": [lit]}]}
+                return self.seq([node], scope, tail)
         if stmts and stmts[0].get("kind") == "WhileStmt":
             ins = stmts[0]["inner"]
             if len(ins) != 2:
@@ -1319,6 +1632,39 @@ class LFn(Fn):
         vk = self.vec_of(strip_copies(rvd["inner"][-1]), scope) if rvd.get("inner") else None
         vd = var["inner"][0]
         qt = vd.get("type", {}).get("qualType", "")
+        lst = None
+        for m_ in walk(rng):
+            if m_.get("kind") == "CXXStdInitializerListExpr":
+                lst = strip(m_["inner"][0])
+        if lst is not None and lst.get("kind") == "InitListExpr" and not qt.rstrip().endswith("&"):
+            vals = [fold(e) for e in lst.get("inner", [])]
+            try:
+                ity = int_type(vd)
+            except Untranslatable:
+                ity = None
+            if vals and all(v is not None for v in vals) and ity is not None:
+                # for (const T x : {c1, .., cn}) body, x taking each constant in turn: unrolled
+                name = vd["name"]
+                if name in scope:
+                    raise Untranslatable("redeclaration of the name " + name)
+                bl = self.body_list(body)
+                if self.escapes(bl):
+                    raise Untranslatable("range-for body that leaves the loop")
+                out, sc = "", list(scope)
+                for v in vals:
+                    lo, hi = (-(1 << (ity[0] - 1)), (1 << (ity[0] - 1)) - 1) if ity[1] else (0, (1 << ity[0]) - 1)
+                    if not lo <= v <= hi:
+                        raise Untranslatable("range-for constant out of range")
+                    vs = [x for x in self.assigned(bl, sc) if x is not None]
+                    if not vs:
+                        raise Untranslatable("range-for body without effect")
+                    self.kinds[name] = "Z"
+                    self.ctype[name] = ity
+                    out += "do %s <- (\nlet %s := %s in\n%s\n) ;;\n" % (self.pat(vs), name, zl(v), self.seq(bl, sc + [name], ("fall", vs)))
+                    for x in vs:
+                        if self.kinds.get(x, "").startswith("vec:") or self.kinds.get(x) == "str":
+                            self.vec_resized(x, sc)
+                return out + self.seq(rest, sc, tail)
         if vk is None or not vk[1].startswith("vec:") or not qt.rstrip().endswith("&") or qt.startswith("const "):
             return Fn.range_for(self, st, rest, scope, tail)
         vec, ek = vk[0], vk[1][4:]
@@ -1477,9 +1823,9 @@ class LFn(Fn):
 
     def prepare(self):
         rt = clean(self.ast.get("type", {}).get("qualType", "").split("(")[0])
-        rt = {"std::size_t": "unsigned long"}.get(rt, rt)
+        rt = {"std::size_t": "unsigned long", "time_zone": "cctz::time_zone"}.get(rt, rt)
         self.ret_kind = lclassify(rt)
-        if self.ret_kind not in ("bool", "Z"):
+        if self.ret_kind not in ("bool", "Z", "osrc", "tzv"):
             raise Untranslatable("return type " + rt)
         if self.owner == "TimeZoneInfo":
             for x, k in XSTATE_MEMBERS.items():
@@ -1495,20 +1841,31 @@ class LFn(Fn):
                 info = self.unit.known.get(m["inner"][0].get("name"))
                 if info is not None and info["fuel"]:
                     self.fuel = True
+                if info is not None and strip(m["inner"][0]["inner"][0]).get("kind") == "CXXThisExpr":
+                    for x in info.get("xstates", []):              # the callee threads version_: so does the caller
+                        if x in XSTATE_MEMBERS and x not in self.xstates:
+                            self.xstates.insert(0, x)
+                            self.kinds[x] = XSTATE_MEMBERS[x]
+                            self.mkinds[x] = XSTATE_MEMBERS[x]
         for m, k, _ in self.members:
             self.kinds[m] = k
             if k in ("Z", "oZ"):
                 self.ctype[m] = ZONE_CTYPE.get(m, (64, False))
         return {"key": self.key, "gname": self.gname, "fuel": self.fuel, "owner": self.owner, "const": self.const_method,
-                "params": self.sig, "outz": list(self.outz), "ret": zk(self.ret_kind), "xstates": list(self.xstates)}
+                "params": self.sig, "outz": list(self.outz), "ret": zk(self.ret_kind), "xstates": list(self.xstates),
+                "uses_version": self.uses_version}
 
     def translate(self):
         scope = [m for m, _, _ in self.members] + list(self.xstates) + self.scope0 + list(self.outz)
         term = self.seq(self.body_list(self.body), scope, ("none",))
         pre = "".join("let %s := %s %s in\n" % (m, proj, self.this_var) for m, _, proj in self.members)
-        binders = (["(fuel : nat)"] if self.fuel else []) + ["(%s : %s)" % (self.this_var, self.this_type)] + \
+        binders = (["(fuel : nat)"] if self.fuel else []) + (["(%s : %s)" % (self.this_var, self.this_type)] if self.this_var else []) + \
+            (["(getenv__ : list Z -> option (list Z))"] if self.uses_getenv else []) + \
+            (["(fopen__ : list Z -> option (list Z))"] if self.uses_fopen else []) + \
+            (["(TZ : Type) (tz_default__ : TZ) (load_time_zone__ : list Z -> TZ -> bool * TZ)"] if self.uses_loadtz else []) + \
             ["(%s : %s)" % (x, ZM.GTYPE[self.kinds[x]]) for x in self.xstates] + \
-            (["(zip__version : list Z)"] if self.uses_version else []) + self.binders + ["(%s : option Z)" % o for o in self.outz]
+            (["(zip__version : list Z)"] if self.uses_version else []) + \
+            (["(factory__ : list Z -> option (list Z * list Z))"] if self.uses_factory else []) + self.binders + ["(%s : option Z)" % o for o in self.outz]
         return "".join(self.loops) + "Definition %s %s : res (%s) :=\n%s%s.\n" % (self.gname, " ".join(binders), self.ret_type(), pre, term)
 
 PRELUDE = """(* SourceLoad.v - GENERATED by gen/ast_translate_load.py from clang's AST of /repo's current
@@ -1546,6 +1903,404 @@ Definition vec_set {A} (l : list A) (i : Z) (x : A) : res (list A) :=
   if (0 <=? i) && (i <? vec_size l) then OK (firstn (Z.to_nat i) l ++ x :: skipn (S (Z.to_nat i)) l) else Err OOB.
 
 """
+
+
+class CacheFn:
+    """time_zone::Impl::LoadTimeZone (src/time_zone_impl.cc) as a SEQUENTIAL function over an explicit cache.
+    time_zone_map (a nullable pointer to an unordered_map<string, const Impl*>) is [option imap], an association list
+    with the newest key first; a `const Impl*` is [option nat] (None = nullptr, UTCImpl() = utc_impl_ptr); `*tz` holds
+    such a pointer.  A std::lock_guard on TimeZoneMutex() appends LkLock to the trace where it is declared and LkUnlock
+    where its scope ends (every return included); time_zone_map may only be touched while one is alive, and at each
+    acquisition it is replaced by [world__ k time_zone_map] (k-th acquisition of this call): whatever the other threads
+    left there.  `new Impl(name)` is the oracle [new_impl__ name] = (identity, zone_ != nullptr)."""
+    WRAP = ("ExprWithCleanups", "ImplicitCastExpr", "MaterializeTemporaryExpr", "ParenExpr", "CXXBindTemporaryExpr", "CXXFunctionalCastExpr")
+    STATE = ("tz", "time_zone_map", "trace")
+
+    def __init__(self, key, ast, path):
+        self.key, self.ast, self.n, self.path = key, ast, 0, path
+
+    def check_globals(self):
+        """time_zone_map is ONE namespace-scope pointer (not thread_local) that starts null; TimeZoneMutex() returns the
+        same mutex on every call (a function-local static pointer, not thread_local, initialised with new std::mutex)"""
+        vs = [d for d in clang_docs("time_zone_map", self.path) if d.get("kind") == "VarDecl" and d.get("name") == "time_zone_map"]
+        if len(vs) != 1 or "tls" in vs[0] or not vs[0].get("type", {}).get("qualType", "").endswith("TimeZoneImplByName *"):
+            raise Untranslatable("time_zone_map is not a single process-wide TimeZoneImplByName*")
+        init = self.core(vs[0]["inner"][-1]) if vs[0].get("inner") else {}
+        if init.get("kind") != "CXXNullPtrLiteralExpr":
+            raise Untranslatable("time_zone_map does not start as nullptr")
+        fs = [d for d in clang_docs("TimeZoneMutex", self.path) if d.get("kind") == "FunctionDecl" and d.get("name") == "TimeZoneMutex"
+              and any(c.get("kind") == "CompoundStmt" for c in d.get("inner", []))]
+        ok = len(fs) == 1 and fs[0].get("type", {}).get("qualType") == "std::mutex &()"
+        body = [c for c in fs[0]["inner"] if c.get("kind") == "CompoundStmt"][0].get("inner", []) if ok else []
+        ok = ok and len(body) == 2 and body[0].get("kind") == "DeclStmt" and body[1].get("kind") == "ReturnStmt"
+        if ok:
+            v = body[0]["inner"][0]
+            nw = self.core(v["inner"][-1]) if v.get("inner") else {}
+            r = self.core(body[1]["inner"][0])
+            ok = v.get("kind") == "VarDecl" and v.get("storageClass") == "static" and "tls" not in v and self.ty(v) == "std::mutex *" \
+                and nw.get("kind") == "CXXNewExpr" and self.ty(nw) == "std::mutex *" \
+                and r.get("kind") == "UnaryOperator" and r.get("opcode") == "*" \
+                and self.core(r["inner"][0]).get("referencedDecl", {}).get("name") == v.get("name")
+        if not ok:
+            raise Untranslatable("TimeZoneMutex() is not a single process-wide mutex")
+
+    def tmp(self):
+        self.n += 1
+        return "t%d" % self.n
+
+    @staticmethod
+    def ty(n):
+        return n.get("type", {}).get("qualType", "")
+
+    def core(self, n):
+        while True:
+            k = n.get("kind")
+            if k in self.WRAP and len(n.get("inner", [])) == 1:
+                n = n["inner"][0]
+            elif k == "CXXConstructExpr" and len(n.get("inner", [])) == 1 and \
+                    (self.ty(n) in ("cctz::time_zone", "std::chrono::duration<long>") or "const_iterator" in self.ty(n)):
+                n = n["inner"][0]
+            else:
+                return n
+
+    def callee(self, n):
+        c = self.core(n["inner"][0])
+        if c.get("kind") == "DeclRefExpr":
+            return c.get("referencedDecl", {}).get("name")
+        if c.get("kind") == "MemberExpr":
+            return c.get("name")
+        return None
+
+    def var(self, n, env, kind=None):
+        c = self.core(n)
+        if c.get("kind") != "DeclRefExpr":
+            return None
+        nm = c.get("referencedDecl", {}).get("name")
+        if nm in env and (kind is None or env[nm][0] == kind):
+            return nm
+        return None
+
+    def need_lock(self, what):
+        if not any(self.scopes):
+            raise Untranslatable("%s without holding TimeZoneMutex" % what)
+
+    def read_map(self, pre):
+        self.need_lock("time_zone_map dereferenced")
+        t = self.tmp()
+        pre.append("do %s <- get_opt time_zone_map ;;" % t)
+        return t
+
+    # -- expressions: (term, kind); binding lines go to pre; assigned variables to mods
+    def ex(self, n, env, pre, mods):
+        n = self.core(n)
+        k = n.get("kind")
+        if k == "CXXBoolLiteralExpr":
+            return ("true" if n.get("value") else "false"), "bool"
+        if k == "CXXNullPtrLiteralExpr":
+            return "None", "null"
+        if k == "DeclRefExpr":
+            nm = n.get("referencedDecl", {}).get("name")
+            if nm not in env:
+                raise Untranslatable("reference to %s" % nm)
+            kind = env[nm][0]
+            if kind == "mapp":
+                self.need_lock("time_zone_map read")
+                return nm, kind
+            if kind == "implref":
+                m = self.read_map(pre)
+                t = self.tmp()
+                pre.append("do %s <- get_opt (map_find %s %s) ;;" % (t, m, env[nm][1]))
+                return t, "iptr"
+            if kind == "lock":
+                raise Untranslatable("use of a lock_guard")
+            return nm, kind
+        if k == "CallExpr":
+            f = self.callee(n)
+            args = n["inner"][1:]
+            if f == "UTCImpl" and not args:
+                return "utc_impl_ptr", "iptr"
+            if f == "zero" and not args:
+                return "0", "Z"
+            if f == "FixedOffsetFromName" and len(args) == 2:
+                s = self.var(args[0], env, "str")
+                a = self.core(args[1])
+                o = self.var(a["inner"][0], env, "Z") if a.get("kind") == "UnaryOperator" and a.get("opcode") == "&" else None
+                if s and o:
+                    t = self.tmp()
+                    pre.append("do '(%s, %s) <- SourceFixed.so_FixedOffsetFromName %s %s ;;" % (t, o, s, o))
+                    mods.add(o)
+                    return t, "bool"
+            raise Untranslatable("call of %s" % f)
+        if k == "UnaryOperator" and n.get("opcode") == "!":
+            a, ka = self.ex(n["inner"][0], env, pre, mods)
+            if ka != "bool":
+                raise Untranslatable("! of a %s" % ka)
+            return "(negb %s)" % a, "bool"
+        if k == "BinaryOperator" and n.get("opcode") in ("&&", "||"):
+            a, ka = self.ex(n["inner"][0], env, pre, mods)
+            p2, m2 = [], set()
+            b, kb = self.ex(n["inner"][1], env, p2, m2)
+            if p2 or m2 or ka != "bool" or kb != "bool":
+                raise Untranslatable("right operand of %s with effects" % n.get("opcode"))
+            return "(%s %s %s)" % (a, n.get("opcode"), b), "bool"
+        if k == "BinaryOperator" and n.get("opcode") in ("==", "!="):
+            a, ka = self.ex(n["inner"][0], env, pre, mods)
+            b, kb = self.ex(n["inner"][1], env, pre, mods)
+            neg = n.get("opcode") == "!="
+            if ka == "mapp" and kb == "null":
+                r = "match %s with Some _ => false | None => true end" % a
+            elif ka == "iptr" and kb in ("iptr", "null"):
+                r = "optnat_eqb %s %s" % (a, b)
+            elif ka == "bool" and kb == "bool":
+                r = "Bool.eqb %s %s" % (a, b)
+            else:
+                raise Untranslatable("comparison of a %s and a %s" % (ka, kb))
+            return ("(negb (%s))" % r if neg else "(%s)" % r), "bool"
+        if k == "CXXOperatorCallExpr":
+            f = self.callee(n)
+            args = n["inner"][1:]
+            if f == "operator==" and len(args) == 2:
+                a, ka = self.ex(args[0], env, pre, mods)
+                b, kb = self.ex(args[1], env, pre, mods)
+                if ka == "Z" and kb == "Z":
+                    return "(%s =? %s)" % (a, b), "bool"
+            if f in ("operator!=", "operator==") and len(args) == 2:
+                for x, y in ((args[0], args[1]), (args[1], args[0])):
+                    it = self.var(x, env, "itr")
+                    e = self.core(y)
+                    if it and e.get("kind") == "CXXMemberCallExpr" and self.callee(e) == "end" and \
+                            self.var(self.core(e["inner"][0])["inner"][0], env, "mapp") and env[it][1] == self.epoch:
+                        self.need_lock("time_zone_map->end()")
+                        if f == "operator!=":
+                            return "(match %s with Some _ => true | None => false end)" % it, "bool"
+                        return "(match %s with Some _ => false | None => true end)" % it, "bool"
+            raise Untranslatable("operator call %s" % f)
+        if k == "MemberExpr" and n.get("name") == "second":
+            b = self.core(n["inner"][0])
+            if b.get("kind") == "CXXOperatorCallExpr" and self.callee(b) == "operator->":
+                it = self.var(b["inner"][1], env, "itr")
+                if it and env[it][1] == self.epoch:
+                    t = self.tmp()
+                    pre.append("do %s <- get_opt %s ;;" % (t, it))
+                    return t, "iptr"
+            raise Untranslatable("->second of something else than a live iterator")
+        if k == "CXXMemberCallExpr":
+            f = self.callee(n)
+            base = self.core(n["inner"][0])["inner"][0] if self.core(n["inner"][0]).get("inner") else None
+            args = n["inner"][1:]
+            if f == "operator bool" and base is not None:
+                z = self.core(base)
+                if z.get("kind") == "MemberExpr" and z.get("name") == "zone_":
+                    p = self.core(z["inner"][0])
+                    if p.get("kind") == "CXXOperatorCallExpr" and self.callee(p) == "operator->":
+                        u = self.var(p["inner"][1], env, "uimpl")
+                        if u:
+                            t = self.tmp()
+                            pre.append("do %s <- get_opt %s ;;" % (t, u))
+                            return "(snd %s)" % t, "bool"
+            if f == "release" and base is not None and not args:
+                u = self.var(base, env, "uimpl")
+                if u:
+                    t = self.tmp()
+                    pre.append("let %s := option_map fst %s in" % (t, u))
+                    pre.append("let %s := None in" % u)
+                    mods.add(u)
+                    return t, "iptr"
+            if f == "find" and base is not None and len(args) == 1 and self.var(base, env, "mapp"):
+                s = self.var(args[0], env, "str")
+                if s:
+                    m = self.read_map(pre)
+                    return "(map_find %s %s)" % (m, s), "itr"
+            raise Untranslatable("member call %s" % f)
+        if k == "ConditionalOperator":
+            c, kc = self.ex(n["inner"][0], env, pre, mods)
+            pa, ma, pb, mb = [], set(), [], set()
+            a, ka = self.ex(n["inner"][1], env, pa, ma)
+            b, kb = self.ex(n["inner"][2], env, pb, mb)
+            if kc != "bool" or ka != kb:
+                raise Untranslatable("conditional of %s ? %s : %s" % (kc, ka, kb))
+            if not (pa or pb):
+                return "(if %s then %s else %s)" % (c, a, b), ka
+            ms = sorted(ma | mb)
+            t = self.tmp()
+            tup = lambda v: "(" + ", ".join([v] + ms) + ")"
+            pre.append("do '%s <- (if %s then (%s OK %s) else (%s OK %s)) ;;" % (tup(t), c, " ".join(pa), tup(a), " ".join(pb), tup(b)))
+            mods |= set(ms)
+            return t, ka
+        if k == "CXXNewExpr":
+            c = n["inner"][0] if n.get("inner") else {}
+            if c.get("kind") == "CXXConstructExpr" and self.ty(c) == "cctz::time_zone::Impl" and len(c.get("inner", [])) == 1:
+                s = self.var(c["inner"][0], env, "str")
+                if s:
+                    return "(Some (new_impl__ %s))" % s, "uimpl"
+            if c.get("kind") == "CXXConstructExpr" and "TimeZoneImplByName" in self.ty(c) and not c.get("inner"):
+                return "(Some [])", "mapp"
+            raise Untranslatable("new %s" % self.ty(c))
+        if k == "CXXConstructExpr" and self.ty(n).startswith("std::unique_ptr<const") and len(n.get("inner", [])) == 1:
+            return self.ex(n["inner"][0], env, pre, mods)
+        raise Untranslatable("expression %s" % k)
+
+    # -- statements, in continuation-passing style: work is the list of what remains to be done
+    def assigned(self, n, env):
+        out = set()
+        for m in walk(n):
+            if m.get("kind") == "BinaryOperator" and m.get("opcode") == "=":
+                v = self.var(m["inner"][0], env)
+                if v and env[v][0] not in ("mapp", "implref"):
+                    out.add(v)
+            if m.get("kind") == "UnaryOperator" and m.get("opcode") == "&":
+                v = self.var(m["inner"][0], env)
+                if v:
+                    out.add(v)
+            if m.get("kind") == "MemberExpr" and m.get("name") == "release":
+                v = self.var(m["inner"][0], env)
+                if v:
+                    out.add(v)
+        return sorted(out)
+
+    def unlock(self, scope):
+        return ["let trace := trace ++ [LkUnlock] in" for _ in scope]
+
+    def run(self, work, scopes, env, nlk):
+        self.scopes = scopes
+        if not work:
+            raise Untranslatable("control reaches the end of the function")
+        s, rest = work[0], work[1:]
+        if isinstance(s, tuple) and s[0] == "end":
+            env2 = {k: v for k, v in env.items() if k in s[1]}
+            return "\n".join(self.unlock(scopes[-1]) + [self.run(rest, scopes[:-1], env2, nlk)])
+        if isinstance(s, tuple) and s[0] == "yield":
+            return "OK (%s)" % ", ".join(s[1])
+        k = s.get("kind")
+        pre, mods = [], set()
+        if k == "CompoundStmt":
+            return self.run(list(s.get("inner", [])) + [("end", set(env))] + rest, scopes + ((),), env, nlk)
+        if k == "DeclStmt":
+            if len(s.get("inner", [])) != 1 or s["inner"][0].get("kind") != "VarDecl":
+                raise Untranslatable("declaration statement")
+            d = s["inner"][0]
+            nm, t = d.get("name"), self.ty(d)
+            if nm in self.STATE or nm in ("name", "world__", "new_impl__") or re.match(r"^t\d+$", nm) or nm in ZM.RESERVED:
+                raise Untranslatable("local named %s" % nm)
+            init = d["inner"][-1] if d.get("inner") else None
+            env = dict(env)
+            if t == "std::lock_guard<std::mutex>":
+                c = self.core(init) if init else {}
+                a = self.core(c["inner"][0]) if c.get("kind") == "CXXConstructExpr" and len(c.get("inner", [])) == 1 else {}
+                if not (a.get("kind") == "CallExpr" and self.callee(a) == "TimeZoneMutex"):
+                    raise Untranslatable("lock_guard on something else than TimeZoneMutex()")
+                if any(scopes):
+                    raise Untranslatable("TimeZoneMutex acquired twice")
+                env[nm] = ("lock",)
+                self.epoch += 1
+                lines = ["let trace := trace ++ [LkLock] in", "let time_zone_map := world__ %d%%nat time_zone_map in" % nlk]
+                return "\n".join(lines + [self.run(rest, scopes[:-1] + (scopes[-1] + (nm,),), env, nlk + 1)])
+            if t.endswith("&") and "Impl *" in t:
+                c = self.core(init)
+                ok = c.get("kind") == "CXXOperatorCallExpr" and self.callee(c) == "operator[]" and len(c["inner"]) == 3
+                m = self.core(c["inner"][1]) if ok else {}
+                s_ = self.var(c["inner"][2], env, "str") if ok else None
+                ok = ok and "std::unordered_map<std::basic_string<char>, const cctz::time_zone::Impl *>::mapped_type" in self.ty(c)
+                if not (ok and s_ and m.get("kind") == "UnaryOperator" and m.get("opcode") == "*" and self.var(m["inner"][0], env, "mapp")):
+                    raise Untranslatable("reference %s" % nm)
+                mm = self.read_map(pre)
+                pre.append("let time_zone_map := Some (map_index %s %s) in" % (mm, s_))
+                env[nm] = ("implref", s_, self.epoch)
+                return "\n".join(pre + [self.run(rest, scopes, env, nlk)])
+            want = {"bool": "bool", "std::chrono::duration<long>": "Z"}.get(t)
+            if want is None and re.match(r"^const (cctz::time_zone::)?Impl \*( ?const)?$", t):
+                want = "iptr"
+            if want is None and "const_iterator" in t:
+                want = "itr"
+            if want is None and t.startswith("std::unique_ptr<const") and "Impl>" in t:
+                want = "uimpl"
+            if want is None or init is None:
+                raise Untranslatable("local %s of type %s" % (nm, t))
+            e, ke = self.ex(init, env, pre, mods)
+            if ke != want:
+                raise Untranslatable("initialiser of %s: a %s" % (nm, ke))
+            env[nm] = (want, self.epoch)
+            return "\n".join(pre + ["let %s := %s in" % (nm, e), self.run(rest, scopes, env, nlk)])
+        if k == "IfStmt":
+            inner = s["inner"]
+            if len(inner) not in (2, 3):
+                raise Untranslatable("if with a declaration")
+            c, kc = self.ex(inner[0], env, pre, mods)
+            if kc != "bool":
+                raise Untranslatable("condition of kind %s" % kc)
+            br = [inner[1]] + ([inner[2]] if len(inner) == 3 else [])
+            wrap = lambda b: b if b.get("kind") == "CompoundStmt" else {"kind": "CompoundStmt", "inner": [b]}
+            if not any(m.get("kind") == "ReturnStmt" for b in br for m in walk(b)):
+                vs = list(self.STATE) + [v for v in self.assigned(s, env)]
+                a = self.run([wrap(br[0]), ("yield", vs)], scopes, env, nlk)
+                b = self.run([wrap(br[1]), ("yield", vs)], scopes, env, nlk) if len(br) == 2 else "OK (%s)" % ", ".join(vs)
+                self.kill_refs_if_map_assigned(s, env)
+                return "\n".join(pre + ["do '(%s) <- (if %s then (" % (", ".join(vs), c), a, ") else (", b, ")) ;;",
+                                        self.run(rest, scopes, self.env_after(s, env), nlk)])
+            a = self.run([wrap(br[0])] + rest, scopes, env, nlk)
+            b = self.run(([wrap(br[1])] if len(br) == 2 else []) + rest, scopes, env, nlk)
+            return "\n".join(pre + ["if %s then (" % c, a, ") else (", b, ")"])
+        if k == "ReturnStmt":
+            e, ke = self.ex(s["inner"][0], env, pre, mods)
+            if ke != "bool":
+                raise Untranslatable("return of a %s" % ke)
+            lines = pre + ["let ret__ := %s in" % e]
+            for sc in reversed(scopes):
+                lines += self.unlock(sc)
+            return "\n".join(lines + ["OK (ret__, tz, time_zone_map, trace)"])
+        c = self.core(s)
+        if c.get("kind") == "CXXOperatorCallExpr" and self.callee(c) == "operator=" and len(c["inner"]) == 3:
+            l = self.core(c["inner"][1])
+            if l.get("kind") == "UnaryOperator" and l.get("opcode") == "*" and self.var(l["inner"][0], env, "tzp"):
+                e, ke = self.ex(c["inner"][2], env, pre, mods)
+                if ke != "iptr":
+                    raise Untranslatable("*tz = a %s" % ke)
+                return "\n".join(pre + ["let tz := %s in" % e, self.run(rest, scopes, env, nlk)])
+        if c.get("kind") == "BinaryOperator" and c.get("opcode") == "=":
+            v = self.var(c["inner"][0], env)
+            if v:
+                kind = env[v][0]
+                e, ke = self.ex(c["inner"][1], env, pre, mods)
+                if kind == "mapp" and ke == "mapp":
+                    self.need_lock("time_zone_map written")
+                    self.epoch += 1
+                    env = {k_: v_ for k_, v_ in env.items() if v_[0] != "implref"}
+                    return "\n".join(pre + ["let time_zone_map := %s in" % e, self.run(rest, scopes, env, nlk)])
+                if kind == "implref" and ke in ("iptr", "null"):
+                    if env[v][2] != self.epoch:
+                        raise Untranslatable("write through a stale reference")
+                    m = self.read_map(pre)
+                    return "\n".join(pre + ["let time_zone_map := Some (map_set %s %s %s) in" % (m, env[v][1], e), self.run(rest, scopes, env, nlk)])
+                if kind in ("bool", "iptr", "Z") and (ke == kind or (kind == "iptr" and ke == "null")):
+                    return "\n".join(pre + ["let %s := %s in" % (v, e), self.run(rest, scopes, env, nlk)])
+        raise Untranslatable("statement %s" % k)
+
+    def map_assigned(self, n, env):
+        return any(m.get("kind") == "BinaryOperator" and m.get("opcode") == "=" and self.var(m["inner"][0], env, "mapp") for m in walk(n))
+
+    def kill_refs_if_map_assigned(self, n, env):
+        pass
+
+    def env_after(self, n, env):
+        if self.map_assigned(n, env):
+            self.epoch += 1
+            return {k: v for k, v in env.items() if v[0] not in ("implref", "itr")}
+        return env
+
+    def translate(self):
+        ps = [c for c in self.ast.get("inner", []) if c.get("kind") == "ParmVarDecl"]
+        if [(p.get("name"), self.ty(p)) for p in ps] != [("name", "const std::string &"), ("tz", "cctz::time_zone *")]:
+            raise Untranslatable("parameters of LoadTimeZone %s" % [(p.get("name"), self.ty(p)) for p in ps])
+        if self.ty(self.ast) != "bool (const std::string &, cctz::time_zone *)":
+            raise Untranslatable("type of LoadTimeZone")
+        self.check_globals()
+        body = [c for c in self.ast["inner"] if c.get("kind") == "CompoundStmt"][0]
+        self.epoch = 0
+        env = {"name": ("str",), "tz": ("tzp",), "time_zone_map": ("mapp",)}
+        text = self.run(list(body.get("inner", [])), ((),), env, 0)
+        return ("Definition sn_LoadTimeZone (world__ : nat -> option imap -> option imap) (new_impl__ : list Z -> nat * bool)\n"
+                "  (time_zone_map : option imap) (trace : list lk_event) (name : list Z) (tz : option nat)\n"
+                "  : res (bool * option nat * option imap * list lk_event) :=\n" + text + ".\n")
 
 
 class LUnit:
@@ -1591,45 +2346,98 @@ class LUnit:
                 raise Untranslatable("members of Header: %s" % hdr)
         except Untranslatable as e:
             return None, [], {"*": str(e)}
-        for flt, name, owner in TARGETS:
+        nparts, ndone, nfailed = [PRELUDE_NAMES], [], {}
+        for tgt in TARGETS:
+            flt, name, owner, fil, key, sel = tgt[:6]
+            path = tgt[6] if len(tgt) > 6 else SRC
+            self.cur_file = fil
+            P, D, F = (parts, done, failed) if fil == "load" else (nparts, ndone, nfailed)
             defs, seen = [], set()
-            for d in clang_docs(flt, SRC):
+            for d in clang_docs(flt, path):
                 for m in walk(d):
                     if m.get("kind") in ("FunctionDecl", "CXXMethodDecl") and m.get("name") == name and m.get("id") not in seen \
                             and any(c.get("kind") == "CompoundStmt" for c in m.get("inner", [])):
                         seen.add(m.get("id"))
                         defs.append(m)
-            if name == "Load":                                   # the overload that reads a ZoneInfoSource
-                defs = [m for m in defs if "ZoneInfoSource" in m.get("type", {}).get("qualType", "")]
+            defs = [m for m in defs if sel in m.get("type", {}).get("qualType", "")]
             if len(defs) != 1:
-                failed[name] = "no single definition"
-                parts.append("(* %s: not translated: no single definition *)\n\n" % name)
+                F[key] = "no single definition"
+                P.append("(* %s: not translated: no single definition *)\n\n" % key)
                 continue
             try:
-                f = LFn(name, defs[0], owner, self)
-                info = f.prepare()
-                text = f.translate()
-                parts.append(text + "\n")
-                self.known[name] = info
-                done.append(name)
+                if owner == "cache":
+                    text, info = CacheFn(key, defs[0], path).translate(), None
+                else:
+                    f = LFn(key, defs[0], owner, self)
+                    info = f.prepare()
+                    text = f.translate()
+                P.append(text + "\n")
+                if key != "LoadName" and info is not None:          # the other overload is called as Load
+                    self.known[name] = info
+                D.append(key)
             except Untranslatable as e:
-                failed[name] = str(e)
-                parts.append("(* %s: not translated: %s *)\n\n" % (name, e))
-        return "".join(parts), done, failed
+                F[key] = str(e)
+                P.append("(* %s: not translated: %s *)\n\n" % (key, e))
+        return "".join(parts), done, failed, "".join(nparts), ndone, nfailed
+
+
+PRELUDE_NAMES = """(* SourceNames.v - GENERATED by gen/ast_translate_load.py from clang's AST of /repo's current
+   src/time_zone_info.cc (ResetToBuiltinUTC, Load(name), FileZoneInfoSource::Open), src/time_zone_lookup.cc
+   (local_time_zone) and src/time_zone_impl.cc (time_zone::Impl::LoadTimeZone) on every run.  Do not edit.
+   Same reading as SourceLoad.v; the outside world is a set of oracles: zone_info_source_factory (with the default
+   sources it may fall back to) [factory__ : name -> option (bytes, Version())], getenv__, fopen__,
+   load_time_zone__, and for LoadTimeZone world__ (time_zone_map as found at each acquisition of the mutex) and
+   new_impl__ (identity of the constructed Impl, zone_ != nullptr). *)
+From CCTZ Require Import Base Cal CivilImpl PosixImpl ZoneLoad ZoneImpl SourceZone SourceLoad.
+From CCTZ Require Source64 SourceDecode Source64InfoProofs SourceFixed.
+Local Open Scope Z_scope.
+(* std::string operations whose position argument must not exceed size() (they throw otherwise) *)
+Definition str_compare_eq (s : list Z) (p n : Z) (lit : list Z) : res bool :=
+  if (0 <=? p) && (p <=? vec_size s) then OK (list_eqb (firstn (Z.to_nat n) (skipn (Z.to_nat p) s)) lit) else Err OOB.
+Definition str_from (s : list Z) (p : Z) : res (list Z) :=
+  if (0 <=? p) && (p <=? vec_size s) then OK (skipn (Z.to_nat p) s) else Err OOB.
+(* ++p for a pointer into a C string: *p must not be the NUL *)
+Definition cstr_next (s : list Z) : res (list Z) := match s with _ :: r => OK r | [] => Err OOB end.
+(* s[i]: the character, the NUL at i = size() *)
+Definition str_at (s : list Z) (i : Z) : res Z := if i <? 0 then Err OOB else cstr_at s (Z.to_nat i).
+(* LoadTimeZone: events on TimeZoneMutex; time_zone_map as an association list (newest key first) of nullable Impl
+   pointers (None = nullptr; an Impl is its identity, UTCImpl() is 0) *)
+Inductive lk_event := LkLock | LkUnlock.
+Definition imap := list (list Z * option nat).
+Definition utc_impl_ptr : option nat := Some O.
+Definition optnat_eqb (a b : option nat) : bool :=
+  match a, b with Some x, Some y => Nat.eqb x y | None, None => true | _, _ => false end.
+Fixpoint map_find (m : imap) (k : list Z) : option (option nat) :=
+  match m with [] => None | (k', v) :: r => if list_eqb k' k then Some v else map_find r k end.
+Fixpoint map_set (m : imap) (k : list Z) (v : option nat) : imap :=
+  match m with [] => [] | (k', v') :: r => if list_eqb k' k then (k', v) :: r else (k', v') :: map_set r k v end.
+(* operator[]: a missing key is inserted with a null pointer *)
+Definition map_index (m : imap) (k : list Z) : imap := match map_find m k with Some _ => m | None => (k, None) :: m end.
+
+"""
+
+
+def emit(out, text, done, failed, force):
+    if failed:
+        if force and text is not None:
+            open(out, "w").write(text)
+        return {"written": False, "translated": done, "untranslated": failed, "kept_previous": True}
+    changed = not os.path.exists(out) or open(out).read() != text
+    if changed:
+        open(out, "w").write(text)
+    return {"written": changed, "translated": done, "untranslated": failed}
 
 
 def main():
     out = sys.argv[1] if len(sys.argv) > 1 and not sys.argv[1].startswith("--") else os.path.join(os.path.dirname(__file__), "..", "coq", "SourceLoad.v")
-    text, done, failed = LUnit().run()
-    if failed:
-        print(json.dumps({"written": False, "translated": done, "untranslated": failed, "kept_previous": True}))
-        if "--force" in sys.argv and text is not None:
-            open(out, "w").write(text)
+    r = LUnit().run()
+    if len(r) == 3:
+        print(json.dumps({"written": False, "translated": [], "untranslated": r[2], "kept_previous": True}))
         return
-    changed = not os.path.exists(out) or open(out).read() != text
-    if changed:
-        open(out, "w").write(text)
-    print(json.dumps({"written": changed, "translated": done, "untranslated": failed}))
+    text, done, failed, ntext, ndone, nfailed = r
+    st = emit(out, text, done, failed, "--force" in sys.argv)
+    st["names"] = emit(os.path.join(os.path.dirname(out), "SourceNames.v"), ntext, ndone, nfailed, "--force" in sys.argv)
+    print(json.dumps(st))
 
 
 if __name__ == "__main__":
